@@ -62,7 +62,8 @@ def _sender_sampled(rng, tier):
         mode = rng.choice(gen.QR_MODES)
         n = int(rng.paretovariate(0.7)) if rng.random() < 0.7 else rng.randint(1, 400)
         n = max(1, min(n, 1200))
-        content = gen.text(rng, mode, n) if rng.random() < 0.9 else gen.near_text(rng, n)
+        r = rng.random()
+        content = gen.text(rng, mode, n) if r < 0.85 else gen.near_text(rng, n) if r < 0.93 else gen.kanji_lookalike(rng, max(1, n // 2))
         if mode == 'hanzi':
             kw['mode'] = 'hanzi'
         elif rng.random() < 0.15:
